@@ -17,6 +17,8 @@ def run(tier):
     C.build_harness()
     S.mc(chk, "c2_k1_d2", "Chains2", 1, 2, 2, 1, "FaultsNone", False, S.SAFETY, True)
     S.mc(chk, "c2_k2_d2", "Chains2", 2, 2, 2, 1, "FaultsNone", False, S.SAFETY, True)
+    # num_tune + num_draws = 0: the run must still terminate with empty traces
+    S.mc(chk, "c2_k1_d0", "Chains2", 1, 0, 2, 1, "FaultsNone", False, S.SAFETY, True)
     if tier == "thorough":
         S.mc(chk, "c3_k2_d2", "Chains3", 2, 2, 2, 1, "FaultsNone", False, S.SAFETY, False, timeout=6000)
         S.mc(chk, "c2_k1_d3_cmd3", "Chains2", 1, 3, 3, 2, "FaultsNone", False, S.SAFETY, True, timeout=6000)
